@@ -50,9 +50,12 @@ CONSTANTS
     WithHold,               \* model checking: the SOCKS5 server may hold its UDP ASSOCIATE reply
     EmptyOn,                \* 0 | 1: the environment operations at positions of this parity carry an empty payload (models only)
     MaxLen,                 \* the largest payload the association socket carries behind the 10-octet SOCKS5 header
+    V6Flows,                \* flows whose destination is written as an IPv6 address (an IPv4-mapped one is one): 22-octet header
     BigOn,                  \* 0 | 1 | 2: client datagrams at positions = BigOn (mod 3) are one octet too long (models only; 3 = never)
     ErrReadNeedsReply,      \* TRUE: the reader meets a pending socket error only when a relayed datagram wakes it (smaller model)
     WithFault               \* models only: a forged ICMP error about a live association is part of the environment
+
+MaxLenOf(f) == IF f \in V6Flows THEN MaxLen - 12 ELSE MaxLen
 
 Key(s, d) == [s |-> s, d |-> d]
 K(f) == Key(Src[f], Dst[f])
@@ -239,7 +242,7 @@ S5LookupMissEndsMux ==
 \* the datagram leaves through the association of its source, addressed to its destination
 SendOk ==
     /\ lpc = "send" /\ rpc = "idle" /\ Src[lcur.f] \in DOMAIN assoc /\ Src[lcur.f] \notin assocErr
-    /\ lcur.len <= MaxLen
+    /\ lcur.len <= MaxLenOf(lcur.f)
     /\ toPeer' = Record(toPeer, [f |-> lcur.f, id |-> lcur.id, to |-> Dst[lcur.f], via |-> Src[lcur.f],
                                  lost |-> relayDown, len |-> lcur.len])
     /\ icmpFly' = IF relayDown THEN icmpFly \cup {Src[lcur.f]} ELSE icmpFly
@@ -254,13 +257,13 @@ SendOk ==
 \* the datagram (with its SOCKS5 header) is longer than the association socket carries: EMSGSIZE,
 \* this datagram is dropped and not counted, a pending error stays pending
 SendTooBig ==
-    /\ lpc = "send" /\ rpc = "idle" /\ lcur.len > MaxLen
+    /\ lpc = "send" /\ rpc = "idle" /\ lcur.len > MaxLenOf(lcur.f)
     /\ done' = Record(done, [f |-> lcur.f, id |-> lcur.id, out |-> "toobig"])
     /\ lpc' = "idle" /\ lcur' = Nil
     /\ UNCHANGED << pipeV, fwdV, inq, rightV, timerV, envV, toPeer, toClient, met, got, everDown, everRefused, everHeld, lifeV >>
 
 SendErr ==
-    /\ lpc = "send" /\ rpc = "idle" /\ lcur.len <= MaxLen /\ Src[lcur.f] \in assocErr
+    /\ lpc = "send" /\ rpc = "idle" /\ lcur.len <= MaxLenOf(lcur.f) /\ Src[lcur.f] \in assocErr
     /\ assocErr' = assocErr \ {Src[lcur.f]}
     /\ done' = Record(done, [f |-> lcur.f, id |-> lcur.id, out |-> "senderr"])
     /\ lpc' = "idle" /\ lcur' = Nil
@@ -493,7 +496,7 @@ EnvQuiet == began /\ (Quiet \/ (Parked /\ hold))
 \* An empty datagram delivers 0 bytes but is a delivery like any other: it reaches the other side,
 \* refreshes the flow's activity and counts as a plain-DNS query / answer
 Lens(f) == IF ops % 2 = EmptyOn THEN {0} ELSE {f}
-LensOut(f) == IF ops % 3 = BigOn THEN {MaxLen + 1} ELSE Lens(f)
+LensOut(f) == IF ops % 3 = BigOn THEN {MaxLenOf(f) + 1} ELSE Lens(f)
 EnvFault  == WithFault /\ EnvQuiet /\ inq = << >> /\ \E f \in Flows : AssocFault(f)
 EnvDgram  == EnvQuiet /\ \E f \in Flows : \E n \in LensOut(f) : ClientDgram(f, nextId, n)
 EnvReply  == EnvQuiet /\ \E f \in Flows : \E n \in Lens(f) : PeerReplies(f, nextId, n)
